@@ -17,3 +17,20 @@ Fixpoint run_calls (which : nat) (calls : list (nat * bool)) (k : kern) (s : sch
   end.
 Definition run_transport (c : nat * kern * sched * list (nat * bool)) : V :=
   match c with (which, k, s, calls) => VL (fst (fst (run_calls which calls k s))) end.
+
+(** PopenSpawn (job popen-sim): operations are reads (size, schedule of the loop) or things happening between calls *)
+From PV Require Import Transport.Popen.
+Definition enc_pw (w : pw) : V :=
+  VL [enc_kern (pk w); vlist (vopt vtext) (pq w); vtext (pbuf w); vbool (peof w); vbool (tdone w)].
+Definition pop_ := (nat * psched + list eact)%type.
+Fixpoint run_pops (ops : list pop_) (w : pw) : list V :=
+  match ops with
+  | [] => []
+  | inl (size, s) :: r =>
+      let '(ok, x, w', s') := popen_read w s size in
+      VL [vbool ok; enc_res x; enc_pw w'; vnat (length s')] :: run_pops r w'
+  | inr es :: r => let w' := env w es in VL [enc_pw w'] :: run_pops r w'
+  end.
+Definition run_popen (c : kern * list pop_) : V :=
+  match c with (k, ops) => VL (run_pops ops {| pk := k; pq := []; pbuf := []; peof := false; tdone := false |}) end.
+Definition run_thread (reads : list (option (list N))) : V := vlist (vopt vtext) (thread_script reads).
